@@ -3,7 +3,7 @@ from checklib import cbytes, cbool, clist, cpair, cN, copt
 
 ID = "C16"
 HARNESS = "c16"
-N_CASES = {"quick": 320, "thorough": 3000}
+N_CASES = {"quick": 320, "thorough": 2500}
 N_SEARCH = {"quick": 1, "thorough": 2}
 SHARD = 64
 HAS_MODEL_OUT = True
@@ -31,7 +31,38 @@ TRUSTED_BASE = [
     "Make's error value is compared as ok / not ok only",
 ]
 ASSUMPTIONS = ["fits32: 2048 + sum (8 + |k| + |v|) + 16 * #pairs < 2^32 (beyond that uint32 positions wrap in the real code)",
-               "H k < 2^32 for the byte-level theorems"]
+               "H k < 2^32 for the byte-level reader theorem C16_serialize_read (hashes are stored in 4 bytes)",
+               "writer, Make and reader use the same hash function H (in Go: cdbHash() streaming hasher vs hashKey())"]
+
+
+def differential(ctx):
+    """Standard differential step, then the diagnostic comparison (not deciding): the model's
+    serialisation against the file bytes of a sample of small / make cases."""
+    import os
+    import tempfile
+    import checklib
+    checklib.differential_step(ctx)
+    try:
+        binp = os.path.join(checklib.HARNESS, "bin", HARNESS)
+        if os.path.realpath(checklib.REPO) != "/repo":
+            binp = os.path.join(ctx.scratch, "bin-" + HARNESS)
+        if not os.path.exists(binp):
+            return
+        rc, out, got = checklib.harness_run(ctx, binp, 60, ctx.seed + 1, os.path.join(ctx.scratch, "diag.jsonl"))
+        cs = [c for c in got if c["kind"] != "big" and c.get("file")][:80]
+        if rc != 0 or not cs:
+            return
+        d = tempfile.mkdtemp(prefix="coqdiag-", dir=ctx.scratch)
+        header = "Definition model_ok := diag_ok.\nDefinition spec_ok := fun _ : case => true."
+        _, bm, _, txt = checklib.eval_shard((d, 0, "Run." + ID, header, [to_coq(c) for c in cs]))
+        if bm is None:
+            ctx.note("diagnostic (file bytes vs model serialisation) could not be evaluated:", txt[-300:])
+            return
+        ctx.cov["diagnostic_file_bytes"] = {"cases": len(cs), "model_serialisation_equals_file": len(cs) - len(bm),
+                                            "deciding": False}
+        ctx.note("diagnostic: model serialisation = file bytes on %d/%d cases (not deciding)" % (len(cs) - len(bm), len(cs)))
+    except Exception as e:  # a diagnostic must never change the verdict
+        ctx.note("diagnostic step failed:", e)
 
 
 def _b(l):
